@@ -20,7 +20,7 @@ def build():
             "engine": "teos-facts (rustc_private MIR extractor) + analysis/*.py",
             "level_claimed": {
                 "category": "other",
-                "text": spec["explanation"],
+                "text": spec["explanation"] + " Rule functions evaluated for this property (catalogue: DESIGN.md §3, §10.1, §13): " + ", ".join(getattr(r, "__name__", "?").replace("rule_", "") for r in spec["rules"]) + ".",
                 "design_ref": "DESIGN.md §4 (%s), §3 for the rules" % pid,
             },
             "level_note": "Trusted base: rustc 1.97-nightly MIR construction and trait resolution; the fact extractor; callback summaries, thread roots, lock-class and classification tables in /verif/analysis (each confirmed by reading, floors fail closed). "
